@@ -21,11 +21,11 @@ from harness import common, env, fixtures, render, spaccept, world
 from harness.common import Raw, cq, cq_opt
 
 PID = "C02"
-PARALLEL = 6
+PARALLEL = 8
 IMPORTS = "From Verif Require Import C02.Model C02.Spec C02.Corr.\nFrom VerifGen Require Import C02Base."
-CASE_TYPE = "C02.Corr.case"
-RUNNER = "C02.Corr.run_v0" if os.environ.get("VERIF_C02_MODEL") == "v0" else "C02.Corr.run"
-FINDING_CLASSES = {1: "C02-F1", 2: "C02-F2"}   # both fixed: a case in either class is a VIOLATION
+CASE_TYPE = "C02.Corr.group"
+RUNNER = {"v0": "C02.Corr.run_v0", "v1": "C02.Corr.run_v1"}.get(os.environ.get("VERIF_C02_MODEL"), "C02.Corr.run")
+FINDING_CLASSES = {1: "C02-F1", 2: "C02-F2", 3: "C02-F3"}   # all fixed: a case in any class is a VIOLATION
 RULE = ("documents derived from genuinely signed Responses (Response-signed, assertion-signed, both; plain and "
         "encrypted; two messages, three key pairs, alternative algorithms): complete catalogue = XSW placements "
         "(sibling before/after, Extensions, Advice, ds:Object, SubjectConfirmationData, AttributeValue, StatusDetail; "
@@ -33,12 +33,35 @@ RULE = ("documents derived from genuinely signed Responses (Response-signed, ass
         "moved, copied+decoy, moved+decoy}, duplicated singleton children, Reference-URI rewrites, transform / c14n / "
         "digest / signature-method rewrites, extra Reference / ds:Object / SignedInfo, splices of two genuine "
         "messages, text edits, each under the SP policies {response, assertions, both, either}; then seeded random "
-        "tree surgery (move / copy / delete / re-ID / wrap / splice).  Observed per document: accepted?, reported "
+        "tree surgery (move / copy / delete / re-ID / wrap / splice); un-namespaced look-alikes of the signed node "
+        "(<Assertion>/<Response> without namespace, with the forged / the genuine / a fresh / no ID, holding the genuine "
+        "signed element) x placement x forged-signature policy, and random surgery followed by engine-oriented steps "
+        "(duplicate an ID among the elements the engine registers, un-namespace, wrap, clone).  SIGNATURE ENGINE as a "
+        "dimension: every document is run under xmlsec1's semantics (the shared stand-in) with a probe that computes, "
+        "for every --verify call of that run, what each of the six variants {duplicate ID: error / first wins / last "
+        "wins} x {first ds:Signature at or below the node / ds:Signature child} would resolve (start node, signature "
+        "node, Reference targets); every variant that resolves any call differently gets a real run of its own; the "
+        "others provably behave like xmlsec1 on that run and share its observation (quick tier: a rotating one of them "
+        "is evaluated in Coq for every second document, thorough tier: all).  Observed per document and engine: accepted?, reported "
         "fields, and from the xmlsec1 stand-in's log which element was digested under which certificate.  "
-        "non-trivial = distinct (family, policy, accepted, digested-element paths)")
+        "non-trivial = distinct (family, policy, accepted, digested-element paths, per-variant outcomes)")
 TRUSTED = ["xmlsec1 stand-in (harness/standin/xmlsec1.py: xmlSecFindNode = first ds:Signature at/below --node-id, "
            "duplicate ID = error, xmldsig.c child-order strictness); the fixed finding C02-F1 depended on these semantics",
+           "the property is checked under SIX signature-engine variants, made in harness/c02.py around the shared stand-in "
+           "(its _register_ids / _find_first are replaced for the duration of one --verify call): ID registration "
+           "{strict = xmlsec1, first registration wins, last wins} x signature selection {first ds:Signature at or below "
+           "the start node = xmlsec1, the ds:Signature child}; element-name matching of --id-attr (un-namespaced elements "
+           "of that local name match too) is xmlsec1's in all variants; the probe that decides which variants need a run "
+           "of their own (harness/c02.py resolutions) is trusted; the fixed finding C02-F3 existed only under the lenient variants",
            "abstraction tree <-> XML text of harness/c02.py (serialise -> parse = identity is checked for every document)",
+           "translator v2 (harness/py2coq2.py, Base/Py2.v; its not-modelled list: notes/translator_v2.md) re-translates on every "
+           "run: response.StatusResponse.issuer, sigver.SecurityContext.correctly_signed_response, "
+           "sigver.CryptoBackendXmlSec1.validate_signature, response.AuthnResponse._assertion and the validator block of "
+           "sigver.SecurityContext._check_signature (cut out of the live text by harness/c02.py slice_validators: from "
+           "`signed_info = item.signature.signed_info` to the `raise SignatureError(error_context)`; the cutting rule is "
+           "trusted) - C02/Source2.v proves each equal to what the model says, for all inputs; the encodings of parsed "
+           "objects (enc_item ... in C02/Source2.v) are trusted to be what the object model builds (that is C12 / the "
+           "correspondence)",
            "oracle bits: content_ok = the real acceptance code run with _check_signature replaced by the identity "
            "(all non-signature checks: C04-C06), schema bits = the real validate_doc_with_schema on str(item)"]
 ASSUMPTIONS = ["ideal digests and signatures (Section hypotheses of C02/Proofs.v; tables of genuinely made values in the "
@@ -205,28 +228,166 @@ def size(t):
     return 1 + sum(size(k) for k in t[3])
 
 
-# ---------------------------------------------------------------------------- stand-in wrapper
+# ---------------------------------------------------------------------------- stand-in wrapper, engine variants
 _CAPTURE = {"decrypted": []}
+
+# The signature ENGINE is a dimension of the check.  pysaml2 is written for xmlsec1 (duplicate ID under --id-attr =
+# hard error; the first ds:Signature in document order at or below the start node is processed) and the shared
+# stand-in implements exactly that.  sigver._is_the_only_signature_child is defence in depth for engines that
+# resolve a duplicated ID silently (first registration wins: libxml2 xmlGetID; last wins: hash-map registries) or
+# that process the ds:Signature CHILD of the start node.  The variants are made here, around the shared stand-in
+# (its _register_ids / _find_first are replaced for the duration of one --verify call), not in it.
+ID_MODES = ("strict", "first", "last")
+SIG_SELS = ("below", "child")
+DEFAULT_ENGINE = ("strict", "below")
+ENGINES = [(i, s_) for s_ in SIG_SELS for i in ID_MODES]
+_ENGINE = {"cur": DEFAULT_ENGINE, "probe": None}
+
+
+def _id_specs(id_attrs):
+    out = []
+    for attr_, spec in id_attrs:
+        if ":" in spec and not spec.startswith("{"):
+            ns, name = spec.rsplit(":", 1)
+        else:
+            ns, name = None, spec
+        out.append((attr_, ns, name))
+    return out
+
+
+def register_ids(m, root, id_attrs, mode):
+    """the stand-in's _register_ids (same element-name matching, document order) with the duplicate policy of the
+    engine variant: strict = the stand-in itself (error), first / last = silent"""
+    if mode == "strict":
+        return m._register_ids(root, id_attrs)
+    ids = {}
+    for attr_, ns, name in _id_specs(id_attrs):
+        for el in m._iter_doc(root):
+            if m._local(el.tag) != name:
+                continue
+            if ns is not None and m._ns(el.tag) and m._ns(el.tag) != ns:
+                continue
+            val = el.get(attr_)
+            if val is None:
+                continue
+            if val in ids and ids[val] is not el and mode == "first":
+                continue
+            ids[val] = el
+    return ids
+
+
+def find_signature(m, start, sel):
+    if sel == "below":
+        return m._find_first(start, m.DS, "Signature")
+    for el in start:
+        if isinstance(el.tag, str) and el.tag == "{%s}Signature" % m.DS:
+            return el
+    return None
+
+
+def resolutions(m, data, opts):
+    """what every engine variant resolves for one --verify call: {engine: (start node, signature node, Reference
+    targets) as document-order indices, or an error tag}.  Everything else a --verify call does is a function of
+    these, so two variants with the same resolution give the same answer."""
+    out = {}
+    try:
+        root = m._parse(data)
+    except Exception as e:  # noqa
+        return {eng: "error:" + type(e).__name__ for eng in ENGINES}
+    order = {id(e): i for i, e in enumerate(root.iter())}
+    regs = {}
+    for mode in ID_MODES:
+        try:
+            regs[mode] = register_ids(m, root, opts["id_attrs"], mode)
+        except m.XErr:
+            regs[mode] = None
+    nid = opts.get("node_id")
+    for eng in ENGINES:
+        ids = regs[eng[0]]
+        try:
+            if ids is None:
+                out[eng] = "dup"
+                continue
+            if nid is None:
+                start = root
+            elif nid in ids:
+                start = ids[nid]
+            else:
+                out[eng] = "no-node"
+                continue
+            sig = find_signature(m, start, eng[1])
+            if sig is None:
+                out[eng] = "no-sig"
+                continue
+            refs = []
+            si = sig.find("{%s}SignedInfo" % m.DS)
+            for ref in (si.findall("{%s}Reference" % m.DS) if si is not None else []):
+                uri = ref.get("URI")
+                if uri is None or uri == "":
+                    refs.append(0)
+                elif uri.startswith("#"):
+                    frag = uri[1:]
+                    if frag.startswith("xpointer(id('") and frag.endswith("'))"):
+                        frag = frag[len("xpointer(id('"):-3]
+                    t = ids.get(frag)
+                    refs.append(order[id(t)] if t is not None else -1)
+                else:
+                    refs.append(-2)
+            out[eng] = (order[id(start)], order[id(sig)], tuple(refs))
+        except Exception as e:  # noqa
+            out[eng] = "error:" + type(e).__name__
+    return out
 
 
 class C02Popen:
-    """the stand-in's FakePopen + capture of what C02 needs to observe: the digest of every --verify input (to
-    tell the received text from the decrypted text) and the output of every successful --decrypt"""
+    """the stand-in's FakePopen under the current engine variant + capture of what C02 needs to observe: the digest of
+    every --verify input (to tell the received text from the decrypted text), the output of every successful
+    --decrypt and (probe mode) the set of engine variants that resolve some --verify call differently"""
 
     def __init__(self, com_list, stderr=None, stdout=None, **kw):
         m = env.standin()
         argv = list(com_list[1:])
         cmd, opts = None, {}
         sha = None
+        data = None
         try:
             cmd, opts = m.parse_args(argv)
             if cmd == "verify" and opts["files"]:
                 with open(opts["files"][-1], "rb") as f:
-                    sha = hashlib.sha1(f.read()).hexdigest()
+                    data = f.read()
+                    sha = hashlib.sha1(data).hexdigest()
         except Exception:
             pass
         n_before = len(m.LOG)
-        self.returncode, self._out, self._err = m.main(argv)
+        engine = _ENGINE["cur"]
+        if cmd == "verify" and data is not None and _ENGINE["probe"] is not None:
+            res = resolutions(m, data, opts)
+            for e in ENGINES:
+                if res[e] != res[engine]:
+                    _ENGINE["probe"].add(e)
+        if cmd == "verify" and engine != DEFAULT_ENGINE:
+            saved = (m._register_ids, m._find_first)
+
+            def reg(root, id_attrs):
+                if engine[0] == "strict":
+                    return saved[0](root, id_attrs)
+                return register_ids(m, root, id_attrs, engine[0])
+
+            def first(start, ns, name):
+                if engine[1] == "child" and ns == m.DS and name == "Signature":
+                    for el in start:
+                        if isinstance(el.tag, str) and el.tag == "{%s}Signature" % m.DS:
+                            return el
+                    return None
+                return saved[1](start, ns, name)
+
+            m._register_ids, m._find_first = reg, first
+            try:
+                self.returncode, self._out, self._err = m.main(argv)
+            finally:
+                m._register_ids, m._find_first = saved
+        else:
+            self.returncode, self._out, self._err = m.main(argv)
         if cmd == "verify" and len(m.LOG) > n_before and sha is not None:
             m.LOG[-1]["input_sha1"] = sha
         if cmd == "decrypt" and self.returncode == 0:
@@ -479,7 +640,8 @@ GEN_TABLES = os.path.join(common.GEN, "C02Tables.v")
 
 def regenerate_tables(ctx):
     """(1) live allow-lists of saml2.xmldsig -> coq/gen/C02Tables.v (Property.v proves them equal to the
-    model's constants); (2) crypto tables of the genuine messages -> coq/gen/C02Base.v (compiled here)."""
+    model's constants); (2) crypto tables of the genuine messages -> coq/gen/C02Base.v (compiled here);
+    (3) translator v2: five decision functions of the anchored code -> coq/gen/C02Src2.v."""
     env.check_repo_import()
     obligations = 0
     try:
@@ -514,7 +676,109 @@ def regenerate_tables(ctx):
             info["base_log"] = out2[-1500:]
     info["digest_entries"] = len(DIGS)
     info["signature_entries"] = len(SIGS)
+    # (3) translator v2: decision functions of the anchored code -> coq/gen/C02Src2.v (C02/Source2.v: one theorem each)
+    from harness import py2coq2
+
+    info2 = py2coq2.regenerate(os.path.join(common.GEN, "C02Src2.v"), src2_items())
+    info["obligations"] = info.get("obligations", 0) + info2["obligations"]
+    info["discharged"] = info.get("discharged", 0) + info2["discharged"]
+    info["untranslatable"] = list(info.get("untranslatable", [])) + list(info2["untranslatable"])
+    info["translated"] = list(info.get("translated", [])) + list(info2["translated"])
+    info["changed"] = bool(info.get("changed")) or bool(info2["changed"])
     return info
+
+
+# ---------------------------------------------------------------------------- translator v2: specs
+SRC2_EXC = {"SignatureError": ["Exception"], "XMLSchemaError": ["Exception"], "XmlsecError": ["Exception"],
+            "MissingKey": ["Exception"], "CertificateError": ["Exception"], "VerificationError": ["Exception"],
+            "StatusInvalidAuthnResponseStatement": ["Exception"]}
+SLICE_DIR = os.path.join(common.WORK, "C02", "slices")
+VALIDATORS_PARAMS = ["item", "decoded_xml", "node_name", "_issuer"]
+
+
+def slice_validators():
+    """The validator block of SecurityContext._check_signature as a function of its own, cut out of the CURRENT source
+    text on every run: the statements from `signed_info = item.signature.signed_info` up to and including
+    `if not all(validators.values()): ... raise SignatureError(...)`.  (The method as a whole is outside the translator's
+    subset: `str(e)` of a caught exception.)  Written to work/C02/slices/; when the block cannot be found the file
+    holds no function and the translation is refused (poisoned definition, broken obligation)."""
+    import ast
+
+    path = os.path.join(env.SRC, "saml2", "sigver.py")
+    out = os.path.join(SLICE_DIR, "sigver_check_signature_validators.py")
+    os.makedirs(SLICE_DIR, exist_ok=True)
+    text = "# slice not found\n"
+    try:
+        with open(path) as f:
+            src = f.read()
+        from harness import py2coq2
+
+        fn = py2coq2.find_function(ast.parse(src), "SecurityContext._check_signature")
+        body = fn.body
+
+        def is_start(st):
+            return (isinstance(st, ast.Assign) and len(st.targets) == 1 and isinstance(st.targets[0], ast.Name)
+                    and st.targets[0].id == "signed_info")
+
+        def is_end(st):
+            t = st.test if isinstance(st, ast.If) else None
+            return (isinstance(t, ast.UnaryOp) and isinstance(t.op, ast.Not) and isinstance(t.operand, ast.Call)
+                    and isinstance(t.operand.func, ast.Name) and t.operand.func.id == "all")
+
+        i = [k for k, st in enumerate(body) if is_start(st)]
+        j = [k for k, st in enumerate(body) if is_end(st)]
+        if len(i) == 1 and len(j) == 1 and i[0] < j[0]:
+            lines = src.splitlines()[body[i[0]].lineno - 1:body[j[0]].end_lineno]
+            text = ("# cut from saml2/sigver.py SecurityContext._check_signature, lines %d-%d\n"
+                    "def _check_signature__validators(%s):\n%s\n" % (body[i[0]].lineno, body[j[0]].end_lineno,
+                                                                    ", ".join(VALIDATORS_PARAMS), "\n".join(lines)))
+    except Exception as e:  # fail closed
+        text = "# slice failed: %s\n" % type(e).__name__
+    common.write_if_changed(out, text)
+    return out
+
+
+def src2_items():
+    S = os.path.join(env.SRC, "saml2")
+    cn = lambda a: '(p2_attr_x %s "c_node_name")' % a[0]           # class_name(x): the node name of the instance's class
+    return [
+        (os.path.join(S, "response.py"), "StatusResponse.issuer",
+         {"name": "src2_issuer", "params": ["self"], "attr_errors": True}),
+        (os.path.join(S, "sigver.py"), "SecurityContext.correctly_signed_response",
+         {"name": "src2_correctly_signed_response",
+          "params": ["self", "decoded_xml", "must", "origdoc", "only_valid_cert", "require_response_signature", "kwargs"],
+          "extra_params": [("parse_resp", "pyval -> pyval"), ("check_sig", "pyval -> pyval -> pyval -> pyval -> pyval")],
+          "attr_errors": True, "exc_parents": SRC2_EXC,
+          "calls": {"samlp.any_response_from_string": lambda a: "(parse_resp %s)" % a[0],
+                    "self._check_signature": lambda a: "(check_sig %s %s %s %s)" % tuple(a), "class_name": cn}}),
+        (os.path.join(S, "sigver.py"), "CryptoBackendXmlSec1.validate_signature",
+         {"name": "src2_validate_signature",
+          "params": ["self", "signedtext", "cert_file", "cert_type", "node_name", "node_id"],
+          "extra_params": [("run_xmlsec", "pyval -> pyval -> pyval"), ("parse_out", "pyval -> pyval -> pyval")],
+          "attr_errors": True, "exc_parents": SRC2_EXC, "classes": {"bytes": ["bytes"]}, "lenient_raise_args": True,
+          # str = the Coq string of its UTF-8 bytes: .encode("utf-8") is the identity on the representation;
+          # make_temp: an object whose .name stands for the file holding that text
+          "calls": {"signedtext.encode": lambda a: "v_signedtext",
+                    "make_temp": lambda a, kw: '(PObj [("__class__", PStr "tmpfile"); ("name", %s)])' % a[0],
+                    "self._run_xmlsec": lambda a: "(run_xmlsec %s %s)" % (a[0], a[1]),
+                    "parse_xmlsec_verify_output": lambda a: "(parse_out %s %s)" % (a[0], a[1])}}),
+        (os.path.join(S, "response.py"), "AuthnResponse._assertion",
+         {"name": "src2_assertion", "params": ["self", "assertion", "verified"], "attr_errors": True,
+          "extra_params": [("check_sig", "pyval -> pyval -> pyval -> pyval"), ("authn_ok", "pyval -> pyval"),
+                           ("cond_ok", "pyval -> pyval"), ("get_subject", "pyval -> pyval")],
+          "calls": {"self.sec.check_signature": lambda a: "(check_sig %s %s %s)" % (a[0], a[1], a[2]), "class_name": cn,
+                    "self.issuer": lambda a: "(src2_issuer v_self)",
+                    "self.authn_statement_ok": lambda a: "(authn_ok v_self)", "self.condition_ok": lambda a: "(cond_ok v_self)",
+                    "self.get_subject": lambda a: "(get_subject v_self)"},
+          "ignore_calls": ["logger.debug", "logger.error", "logger.exception", "logger.info"],
+          "exc_parents": SRC2_EXC, "returns_state": ["self"]}),
+        (slice_validators(), "_check_signature__validators",
+         {"name": "src2_validators", "params": list(VALIDATORS_PARAMS), "attr_errors": True, "exc_parents": SRC2_EXC,
+          "extra_params": [("allowed_c14n", "pyval"), ("allowed_transforms", "pyval"), ("transform_enveloped", "pyval")],
+          "globals": {"ALLOWED_CANONICALIZATIONS": "allowed_c14n", "TRANSFORM_ENVELOPED": "transform_enveloped"},
+          # set.intersection(list): the members of the set that occur in the list (a set: no duplicates)
+          "calls": {"ALLOWED_TRANSFORMS.intersection": lambda a: "(p2_listcomp allowed_transforms (fun x_ => p2_in x_ %s) (fun x_ => x_))" % a[0]}}),
+    ]
 
 
 # ---------------------------------------------------------------------------- surgery helpers
@@ -1098,6 +1362,125 @@ def random_surgery(rng, doc, donor, steps, careful=False):
     return normalise_enc(d), "+".join(desc)
 
 
+# ---------------------------------------------------------------------------- engine-oriented families
+BARE = {"saml:Assertion": "Assertion", "samlp:Response": "Response"}
+
+
+def bare_docs(doc, level, quick):
+    """neighbourhood of C02-F3 / of the uniqueness test of _is_the_only_signature_child: an UN-NAMESPACED element with
+    the local name of the signed node (Assertion / Response) carries an ID - the forged element's, the genuine
+    element's, a fresh one, none - and holds the genuine signed element (signature inside it, or moved up to be the
+    holder's own child); the forged element (fresh ID or the genuine ID) carries a self-referencing decoy, a copy of
+    the genuine signature, or none.  xmlsec1's --id-attr registration matches the un-namespaced element too."""
+    out = []
+    tag = "saml:Assertion" if level == "a" else "samlp:Response"
+    wheres = ("before", "after", "extensions", "statusdetail", "attrvalue")
+    hids = ("forged", "genuine", None) if quick else ("forged", "genuine", "fresh", None)
+    fsigs = ("decoy", "copied") if quick else ("decoy", "copied", "stripped")
+    fids = ("fresh",) if quick else ("fresh", "same")
+    for where in wheres:
+        for hid in hids:
+            for fsig in fsigs:
+                for inner in ("signed", "moved"):
+                    for fid in fids:
+                        root = copy.deepcopy(doc)
+                        if level == "a":
+                            ai = [i for i, k in enumerate(root[3]) if k[0] == tag]
+                            if not ai:
+                                continue
+                            gen = root[3][ai[0]]
+                        else:
+                            gen = root
+                        s_ = child(gen, DS_SIG)
+                        if s_ is None:
+                            continue
+                        gid = attr(gen, "ID")
+                        forged = evil_identity(without(gen, DS_SIG))
+                        if level == "r":
+                            for i, k in enumerate(forged[3]):
+                                if k[0] == "saml:Assertion":
+                                    e = evil_identity(without(k, DS_SIG))
+                                    set_attr(e, "ID", "evil-1")
+                                    forged[3][i] = e
+                        eid = gid if fid == "same" else ("evil-1" if level == "a" else "evil-r")
+                        set_attr(forged, "ID", eid)
+                        if fsig == "decoy":
+                            forged[3].insert(1, decoy_signature(eid))
+                        elif fsig == "copied":
+                            forged[3].insert(1, copy.deepcopy(s_))
+                        orig = copy.deepcopy(gen)
+                        hk = [orig]
+                        if inner == "moved":
+                            hk = [copy.deepcopy(s_), without(orig, DS_SIG)]
+                        holder = T(BARE[tag], kids=hk)
+                        set_attr(holder, "ID", {"forged": eid, "genuine": gid, "fresh": "h-1", None: None}[hid])
+                        if level == "a":
+                            root[3][ai[0]] = forged
+                            top, anchor = root, forged
+                        else:
+                            top, anchor = forged, None
+                        if where in ("extensions", "statusdetail", "attrvalue"):
+                            ev = anchor if level == "a" else ([k for k in top[3] if k[0] == "saml:Assertion"] or [None])[0]
+                            if (where == "attrvalue" and ev is None) or not place(top, ev, holder, where):
+                                continue
+                        elif level == "a":
+                            i = top[3].index(anchor)
+                            top[3].insert(i + (1 if where == "after" else 0), holder)
+                        elif where == "before":
+                            top[3].insert(0, holder)
+                        else:
+                            top[3].append(holder)
+                        out.append(("%s:%s:holder-id=%s:forged-sig=%s:%s:forged-id=%s" % (level, where, hid, fsig, inner, fid), top))
+    return out
+
+
+def engine_surgery(rng, d):
+    """one step that only matters to an engine that is lenient about duplicate IDs / picks the signature child"""
+    d = copy.deepcopy(d)
+    named = [(p, n) for p, n in walk(d) if n[0] in BARE or n[0] in BARE.values()]
+    op = rng.choice(["dupid", "dupid", "bare", "barewrap", "xsw-same", "clone"])
+    try:
+        if op == "dupid":
+            c = [n for p, n in named if attr(n, "ID") is not None]
+            if len(c) >= 2:
+                x, y = rng.sample(c, 2)
+                set_attr(y, "ID", attr(x, "ID"))
+            elif named and c:
+                set_attr(rng.choice(named)[1], "ID", attr(c[0], "ID"))
+        elif op == "bare":
+            c = [n for p, n in named if p and n[0] in BARE]
+            if c:
+                n = rng.choice(c)
+                n[0] = BARE[n[0]]
+        elif op == "barewrap":
+            c = [(p, n) for p, n in walk(d) if p]
+            ids = [attr(n, "ID") for p, n in walk(d) if attr(n, "ID") is not None]
+            if c:
+                p, n = rng.choice(c)
+                h = T(rng.choice(["Assertion", "Response"]), kids=[n])
+                set_attr(h, "ID", rng.choice(ids + [None, "h-1"]))
+                sub(d, p[:-1])[3][p[-1]] = h
+        elif op == "xsw-same":
+            f = rng.choice([xsw_assertion, xsw_response])
+            w = f(d, rng.choice(["before", "after", "extensions", "statusdetail"]), "same",
+                  rng.choice(["copied", "copied+decoy", "decoy", "moved"]), rng.choice(["after", "before"]))
+            if w is not None:
+                d = w
+        elif op == "clone":
+            c = [(p, n) for p, n in named if p and attr(n, "ID") is not None]
+            holders = [n for p, n in walk(d) if n[0] in ("samlp:Response", "samlp:Extensions", "samlp:Status", "saml:Advice")]
+            if c and holders:
+                p, n = rng.choice(c)
+                cp = copy.deepcopy(n)
+                if rng.random() < 0.5:
+                    cp = evil_identity(cp)
+                h = rng.choice(holders)
+                h[3].insert(rng.randint(0, len(h[3])), cp)
+    except (IndexError, ValueError):
+        pass
+    return normalise_enc(d), op
+
+
 # ---------------------------------------------------------------------------- generator
 def policies_for(name, quick):
     return ["R", "A", "B", "E"]
@@ -1173,6 +1556,14 @@ def generate(ctx):
     # 6. encrypted family
     for nm, d in enc_variants():
         add("enc", nm, d, ("R", "A", "E") if not ctx.thorough else ("R", "A", "B", "E"))
+    # 6b. engine-oriented catalogue: un-namespaced look-alikes of the signed node with an ID (C02-F3 and around)
+    for bname, levels in (("m1A", "a"), ("m1R", "r"), ("m1B", "ar")):
+        pols = ({"m1R": ("R", "E"), "m1A": ("A", "E"), "m1B": ("R", "A", "B")} if ctx.thorough else
+                {"m1R": ("R",), "m1A": ("A",), "m1B": ("B",)})[bname]
+        for level in levels:
+            for nm, d in bare_docs(B[bname], level, not ctx.thorough):
+                add("bare", bname + ":" + nm, d, pols)
+    n_catalogue = len(cases)
     # 7. seeded random surgery
     n_random = 20000 if ctx.thorough else 1500
     seeds = [k for k in B if k not in ("evilB_attacker",)]
@@ -1198,6 +1589,27 @@ def generate(ctx):
         else:
             pol = ctx.rng.choice(["R", "A", "A", "B", "E"])
         cases.append({"family": "random", "name": desc, "policy": pol, "doc": d})
+    # 8. seeded random surgery followed by engine-oriented steps (duplicate IDs among the elements the engine
+    #    registers, un-namespaced look-alikes, clones) - own PRNG stream, so that family 7 is what it was
+    rng2 = __import__("random").Random(ctx.seed * 7919 + 2)
+    eng_docs = [c["doc"] for c in cases[:n_catalogue] if c["family"] in ("xsw-a", "xsw-r", "splice", "bare", "genuine")]
+    for i in range(4000 if ctx.thorough else 300):
+        src = rng2.choice(eng_docs)
+        d = src
+        desc = []
+        if rng2.random() < 0.5:
+            d, ds_ = random_surgery(rng2, d, B[rng2.choice(seeds)], rng2.choice([1, 1, 2]), True)
+            desc.append(ds_)
+        for _ in range(rng2.choice([1, 1, 2])):
+            d, op = engine_surgery(rng2, d)
+            desc.append(op)
+        if size(d) > 400:
+            continue
+        cases.append({"family": "random-eng", "name": "+".join(desc), "policy": rng2.choice(["R", "A", "A", "B", "E"]), "doc": d})
+    if ctx.thorough:
+        for c in cases:
+            if c["family"] != "random":
+                c["all_engines"] = True
     return cases
 
 
@@ -1382,67 +1794,110 @@ def path_from_log(tree, logpath, want_id):
     return list(cands[0][0]) if cands else None
 
 
+def run_engine(policy, xml, doc, engine, probe):
+    """one run of the real acceptance path under one engine variant.  Returns (run record, engines that resolved
+    some --verify call differently [probe mode only])"""
+    m = env.standin()
+    sp = spaccept.get_sp(dict(POLICIES[policy]))
+    import saml2.sigver
+
+    saml2.sigver.Popen = C02Popen
+    del m.LOG[:]
+    _CAPTURE["decrypted"] = []
+    _ENGINE["cur"] = tuple(engine)
+    _ENGINE["probe"] = set() if probe else None
+    try:
+        accepted, r, si, exc = run_sp(sp, xml)
+    finally:
+        differing = sorted(_ENGINE["probe"] or [])
+        _ENGINE["cur"] = DEFAULT_ENGINE
+        _ENGINE["probe"] = None
+    log = list(m.LOG)
+    decrypted = list(_CAPTURE["decrypted"])
+    run = {"engines": [list(engine)], "accepted": accepted, "exc": exc, "reported": None, "digs": [], "ddoc": None}
+    # the text against which decrypted assertions were verified
+    ddoc = None
+    if any(n[0] == "saml:EncryptedAssertion" for p, n in walk(doc)):
+        try:
+            if decrypted:
+                ddoc = parse(decrypted[-1])
+            else:
+                from saml2 import samlp
+
+                ddoc = parse(str(samlp.response_from_string(xml)))
+        except Exception:  # noqa
+            ddoc = None
+    run["ddoc"] = ddoc
+    # which elements were digested under a verifying signature, with which certificate
+    doc_sha = hashlib.sha1(xml.encode("utf-8")).hexdigest()
+    fps = _fingerprints()
+    out = []
+    for ent in log:
+        if ent.get("op") != "verify" or not ent.get("ok"):
+            continue
+        k = ent.get("key") or ""
+        key = fps.get(k.split(":", 1)[1], 99) if k.startswith("file:") else 98
+        which = ent.get("input_sha1") != doc_sha
+        tree = ddoc if which else doc
+        if tree is None:
+            out.append([which, [999], [999], key])
+            continue
+        sp_ = path_from_log(tree, ent["signature_path"], None)
+        for dg in ent["digested"]:
+            tp = path_from_log(tree, dg["path"], dg.get("id"))
+            out.append([which, tp if tp is not None else [999], sp_ if sp_ is not None else [999], key])
+    uniq = []
+    for e in sorted(out):
+        if e not in uniq:
+            uniq.append(e)
+    run["digs"] = uniq
+    if accepted and r is not None:
+        run["reported"] = reported_fields(r, si)
+    return run, differing
+
+
+def invariant_sample(case, differing):
+    """engine variants that resolve every --verify call of the default run exactly like xmlsec1 does (their run is
+    the default run, call for call): all of them go into the Coq group in the thorough tier (catalogue families and
+    random-eng; family random: as in the quick tier), a rotating one for every second document in the quick tier"""
+    inv = [list(e) for e in ENGINES if e != DEFAULT_ENGINE and e not in differing]
+    if case.get("all_engines") or not inv:
+        return inv
+    h = int(hashlib.sha1((case["policy"] + json.dumps(case["doc"])).encode()).hexdigest()[:8], 16)
+    return [inv[(h // 2) % len(inv)]] if h % 2 == 0 or case["family"] in ("bare", "random-eng", "genuine") else []
+
+
 def observe(case):
-    m = install()
+    install()
     doc, local = resolve_new_ciphertexts(case["doc"])
     try:
         xml = ser(doc)
         if parse(xml) != doc:
             return {"error": "abstraction: parse(ser(doc)) != doc"}
-        sp = spaccept.get_sp(dict(POLICIES[case["policy"]]))
+        # 1. xmlsec1 as it is (the shared stand-in), probing which engine variants would resolve any --verify call
+        #    of this run differently; 2. one more real run for each of those
+        run0, differing = run_engine(case["policy"], xml, doc, DEFAULT_ENGINE, True)
+        differing = [tuple(e) for e in differing]
+        run0["engines"] += invariant_sample(case, differing)
+        runs = [run0]
+        for e in differing:
+            run, _ = run_engine(case["policy"], xml, doc, e, False)
+            runs.append(run)
+        obs = {"runs": runs, "accepted": run0["accepted"], "exc": run0["exc"], "digs": run0["digs"], "ddoc": run0["ddoc"],
+               "engines_differing": [list(e) for e in differing]}
+        # oracle bits
         import saml2.sigver
 
-        saml2.sigver.Popen = C02Popen
-        del m.LOG[:]
-        _CAPTURE["decrypted"] = []
-        accepted, r, si, exc = run_sp(sp, xml)
-        log = list(m.LOG)
-        decrypted = list(_CAPTURE["decrypted"])
-        obs = {"accepted": accepted, "exc": exc, "reported": None, "digs": [], "ddoc": None}
-        # the text against which decrypted assertions were verified
-        ddoc = None
-        if any(n[0] == "saml:EncryptedAssertion" for p, n in walk(doc)):
-            try:
-                if decrypted:
-                    ddoc = parse(decrypted[-1])
-                else:
-                    from saml2 import samlp
-
-                    ddoc = parse(str(samlp.response_from_string(xml)))
-            except Exception:  # noqa
-                ddoc = None
-        obs["ddoc"] = ddoc
-        # which elements were digested under a verifying signature, with which certificate
-        doc_sha = hashlib.sha1(xml.encode("utf-8")).hexdigest()
-        fps = _fingerprints()
-        out = []
-        for ent in log:
-            if ent.get("op") != "verify" or not ent.get("ok"):
-                continue
-            k = ent.get("key") or ""
-            key = fps.get(k.split(":", 1)[1], 99) if k.startswith("file:") else 98
-            which = ent.get("input_sha1") != doc_sha
-            tree = ddoc if which else doc
-            if tree is None:
-                out.append([which, [999], [999], key])
-                continue
-            sp_ = path_from_log(tree, ent["signature_path"], None)
-            for dg in ent["digested"]:
-                tp = path_from_log(tree, dg["path"], dg.get("id"))
-                out.append([which, tp if tp is not None else [999], sp_ if sp_ is not None else [999], key])
-        uniq = []
-        for e in sorted(out):
-            if e not in uniq:
-                uniq.append(e)
-        obs["digs"] = uniq
-        if accepted and r is not None:
-            obs["reported"] = reported_fields(r, si)
-        # oracle bits
         osp = oracle_sp()
         o_acc, _, _, o_exc = run_sp(osp, xml)
         obs["content_ok"] = bool(o_acc)
         obs["content_exc"] = o_exc
-        obs["schema_root"], obs["schema_as"], obs["schema_enc"] = schema_bits(xml, ddoc)
+        seen = {}
+        for run in runs:
+            key = json.dumps(run["ddoc"])
+            if key not in seen:
+                seen[key] = schema_bits(xml, run["ddoc"])
+            obs["schema_root"], obs["schema_as"], run["schema_enc"] = seen[key]
         return obs
     finally:
         release_new_ciphertexts(local)
@@ -1503,19 +1958,28 @@ def cq_rep(rep):
         cq_opt(rep["session_index"]), cq_opt(rep["session_nooa"]), authn)
 
 
+ENG_NUM = {"strict": 0, "first": 1, "last": 2, "below": 0, "child": 1}
+
+
 def coq_case(case, obs):
+    """a group: one Coq case per (engine variant, run)"""
     if "error" in obs:
         raise RuntimeError(obs["error"])
     ensure_interned()
     doc, local = resolve_tokens_only(case["doc"])
     pol = POLICIES[case["policy"]]
-    digs = "[%s]" % "; ".join("(%s, %s, %s, %d%%nat)" % (cq(bool(w)), cq_path(t), cq_path(s), k) for w, t, s, k in obs["digs"])
-    return "C02.Corr.mk C02Base.world %s %s %s %s %s %s %s %s %s C02Base.tabs %s %s %s" % (
-        cq(bool(pol.get("sp_want_response_signed"))), cq(bool(pol.get("sp_want_assertions_signed"))),
-        cq(bool(pol.get("sp_want_assertions_or_response_signed", False))),
-        cq(bool(obs["content_ok"])), cq(bool(obs["schema_root"])), cq_bools(obs["schema_as"]), cq_bools(obs["schema_enc"]),
-        cq_tree(doc), "None" if obs["ddoc"] is None else "(Some %s)" % cq_tree(obs["ddoc"]),
-        cq(bool(obs["accepted"])), cq_rep(obs["reported"] if obs["accepted"] else None), digs)
+    members = []
+    for run in obs["runs"]:
+        digs = "[%s]" % "; ".join("(%s, %s, %s, %d%%nat)" % (cq(bool(w)), cq_path(t), cq_path(s), k) for w, t, s, k in run["digs"])
+        for ids, sel in run["engines"]:
+            members.append("C02.Corr.mk (C02.Corr.eng %d %d) C02Base.world %s %s %s %s %s %s %s %s %s C02Base.tabs %s %s %s" % (
+                ENG_NUM[ids], ENG_NUM[sel],
+                cq(bool(pol.get("sp_want_response_signed"))), cq(bool(pol.get("sp_want_assertions_signed"))),
+                cq(bool(pol.get("sp_want_assertions_or_response_signed", False))),
+                cq(bool(obs["content_ok"])), cq(bool(obs["schema_root"])), cq_bools(obs["schema_as"]), cq_bools(run["schema_enc"]),
+                "the_doc", "None" if run["ddoc"] is None else "(Some %s)" % cq_tree(run["ddoc"]),
+                cq(bool(run["accepted"])), cq_rep(run["reported"] if run["accepted"] else None), digs))
+    return "(let the_doc := %s in\n   [%s])" % (cq_tree(doc), ";\n    ".join(members))
 
 
 def resolve_tokens_only(doc):
@@ -1530,18 +1994,33 @@ def nontrivial(case, obs):
     if "error" in obs:
         return None
     return (case["family"], case["policy"], obs["accepted"], json.dumps(obs["digs"]), obs["content_ok"],
-            case["name"] if case["family"] != "random" else hashlib.sha1(json.dumps(case["doc"]).encode()).hexdigest()[:10])
+            json.dumps([[r["engines"][0], r["accepted"], r["digs"]] for r in obs["runs"][1:]]),
+            case["name"] if not case["family"].startswith("random") else hashlib.sha1(json.dumps(case["doc"]).encode()).hexdigest()[:10])
 
 
 def histogram(cases, observed):
     h = {"by_family": {}, "by_policy": {}, "accepted": 0, "rejected": 0, "content_ok": 0, "accepted_by_family": {},
          "exceptions": {}, "digested_elements": {"0": 0, "1": 0, "2": 0, "3+": 0}, "encrypted_docs": 0,
-         "doc_nodes": {"<50": 0, "50-99": 0, "100-199": 0, ">=200": 0}, "rejected_although_content_ok": 0}
+         "doc_nodes": {"<50": 0, "50-99": 0, "100-199": 0, ">=200": 0}, "rejected_although_content_ok": 0,
+         "engine_runs": {}, "engine_accepted": {}, "engine_members_in_coq": 0, "docs_engine_sensitive": 0,
+         "docs_accepted_by_some_variant_only": 0, "docs_rejected_by_some_variant_only": 0}
     for c, o in zip(cases, observed):
         h["by_family"][c["family"]] = h["by_family"].get(c["family"], 0) + 1
         h["by_policy"][c["policy"]] = h["by_policy"].get(c["policy"], 0) + 1
         if "error" in o:
             continue
+        for r in o["runs"]:
+            en = "/".join(r["engines"][0])
+            h["engine_runs"][en] = h["engine_runs"].get(en, 0) + 1
+            if r["accepted"]:
+                h["engine_accepted"][en] = h["engine_accepted"].get(en, 0) + 1
+            h["engine_members_in_coq"] += len(r["engines"])
+        if len(o["runs"]) > 1:
+            h["docs_engine_sensitive"] += 1
+            if not o["accepted"] and any(r["accepted"] for r in o["runs"][1:]):
+                h["docs_accepted_by_some_variant_only"] += 1
+            if o["accepted"] and any(not r["accepted"] for r in o["runs"][1:]):
+                h["docs_rejected_by_some_variant_only"] += 1
         h["accepted" if o["accepted"] else "rejected"] += 1
         if o["accepted"]:
             h["accepted_by_family"][c["family"]] = h["accepted_by_family"].get(c["family"], 0) + 1
